@@ -30,3 +30,18 @@ def c05_inv(w):
             and forall(lambda k: implies(k >= n, k not in d and siteCount[k] == 0))
             and (n == 0 or (n - 1) in d)
             and forall(0, n, lambda v: siteCount[v] == 1 and c05_consistent(d, v, siteRole[v])))
+
+
+@spec()
+def c05_target(d, k):
+    """name of the routine that `case k:` of the gateway switch calls"""
+    if k >= 1 and (k - 1) not in d and k in d:
+        return d[k][1].name + '_upcastFromVoid_' + int_str(k)
+    if k in d:
+        return d[k][3]
+    return d[k + 1][3]
+
+
+@spec()
+def c05_upcast_at(d, k):
+    return k >= 1 and (k - 1) not in d and k in d
